@@ -9,7 +9,9 @@ use crate::core::coordinate_transforms::{
 };
 use crate::core::hilbert::{ij_to_s, s_to_anchor};
 use crate::core::origin::{find_nearest_origin, quintant_to_segment, segment_to_quintant};
-use crate::core::serialization::{deserialize, serialize, FIRST_HILBERT_RESOLUTION, WORLD_CELL};
+use crate::core::serialization::{
+    deserialize, serialize, FIRST_HILBERT_RESOLUTION, MAX_RESOLUTION, WORLD_CELL,
+};
 use crate::core::tiling::{
     get_face_vertices, get_pentagon_vertices, get_quintant_polar, get_quintant_vertices,
 };
@@ -23,6 +25,10 @@ pub fn lonlat_to_cell(lonlat: LonLat, resolution: i32) -> Result<u64, String> {
     // Resolution -1 represents WORLD_CELL, which covers the entire world
     if resolution == -1 {
         return Ok(WORLD_CELL);
+    }
+
+    if !(0..MAX_RESOLUTION).contains(&resolution) {
+        return Err(format!("Resolution ({}) is out of range", resolution));
     }
 
     if resolution < FIRST_HILBERT_RESOLUTION {
@@ -170,6 +176,10 @@ pub fn cell_to_lonlat(cell: u64) -> Result<LonLat, String> {
     }
 
     let cell_data = deserialize(cell)?;
+    // Ids without a resolution marker are aliases of the WORLD_CELL
+    if cell_data.resolution == -1 {
+        return Ok(LonLat::new(0.0, 0.0));
+    }
     let pentagon = get_pentagon(&cell_data)?;
     let dodecahedron = DodecahedronProjection::get_thread_local();
     let point = dodecahedron.inverse(pentagon.get_center(), cell_data.origin_id)?;
@@ -205,6 +215,10 @@ pub fn cell_to_boundary(
 
     let opts = options.unwrap_or_default();
     let cell_data = deserialize(cell_id)?;
+    // Ids without a resolution marker are aliases of the WORLD_CELL
+    if cell_data.resolution == -1 {
+        return Ok(Vec::new());
+    }
 
     let segments = opts
         .segments
